@@ -92,9 +92,15 @@ fn worker() {
                     Ok(n) => json!({"fails": [], "n_diags": n}),
                     Err(m) => {
                         db = None; // a panic may leave the salsa database in any state
-                        // signature F6: the extern-type declaration query has no cycle handling
+                        // signatures of recognised root causes: the panicking query / assertion
                         let sig = if m.contains("dependency graph cycle when querying extern_type_declaration_data") {
                             "F6-extern-type-const-param-cycle"
+                        } else if m.contains("cycle when querying priv_global_use_imported_module_tracked") {
+                            "F7-global-use-cycle"
+                        } else if m.contains("Tuple-like pattern must be a tuple or fixed size array") {
+                            "F8-tuple-pattern-on-missing-type"
+                        } else if m.contains("cycle when querying module_macro_modules") {
+                            "F9-macro-modules-cycle"
                         } else {
                             ""
                         };
